@@ -357,7 +357,7 @@ def has_kind(stmts, kinds):
 
 
 def gen_worker(pid, features, nprog, nstates, seed, depth=3, nest=2, lo=1, hi=6, fmt="stmt",
-               nontrivial=None, classify=None, post=None):
+               nontrivial=None, classify=None, post=None, native_all=False):
     """Generate `nprog` programs with Hypothesis, compile, run `nstates` generated states each.
     nontrivial(stmts, judged) -> bool ; classify(stmts) -> iterable of class labels ; post(explorer, stmts, comp)
     is an optional extra judge per compiled program (static checks)."""
@@ -368,6 +368,7 @@ def gen_worker(pid, features, nprog, nstates, seed, depth=3, nest=2, lo=1, hi=6,
     ex = Explorer(p, pid, fmt)
     features = frozenset(features)
     ex.features = features
+    generated = []
 
     @hypothesis.seed(seed)
     @settings(max_examples=nprog, database=None, deadline=None, derandomize=False, phases=[Phase.generate],
@@ -379,6 +380,7 @@ def gen_worker(pid, features, nprog, nstates, seed, depth=3, nest=2, lo=1, hi=6,
         stmts = gen.normalize(stmts, features, ex.all_subs(), nstats)
         for k_, v_ in nstats.items():
             p.exclude(k_.replace("excluded:", ""), v_)
+        generated.append(stmts)
         comp, text, il = ex.compile(stmts)
         if comp is None:
             p.count("program:rejected")
@@ -407,6 +409,13 @@ def gen_worker(pid, features, nprog, nstates, seed, depth=3, nest=2, lo=1, hi=6,
 
     prop()
     ex.finish()
+    # native cross-check of the reference evaluator (and of the validity of the generated C) on this shard's programs
+    from . import native
+    ncomp, nskip, bad = native.crosscheck(generated if native_all else generated[:40], 4, seed)
+    p.count("native cross-check: executions compared with gcc -fwrapv", ncomp)
+    p.count("native cross-check: programs not emitted (calls with register side effects, pairs ...)", nskip)
+    if bad:
+        raise run.HarnessError("reference evaluator / generator disagrees with gcc: " + str(bad[0])[:1500])
     return p.d
 
 
